@@ -481,10 +481,12 @@ NeedsTime == \/ \E j \in Jobs : job[j].timer = "armed"
 AgeBy(jb, n) == [j \in 1 .. Len(jb) |->
                    [jb[j] EXCEPT !.el = IF jb[j].started THEN @ ELSE IF @ + n <= DMAX THEN @ + n ELSE DMAX,
                                  !.age = IF @ + n <= DMAX + 1 THEN @ + n ELSE DMAX + 1]]
+\* (the bound on ticks does not stop a pending start timer from expiring: the saturating counters keep the graph finite)
 Tick ==
-  /\ ClientOk /\ nticks < MaxTicks
+  /\ ClientOk
+  /\ nticks < MaxTicks \/ \E j \in Jobs : job[j].timer = "armed" /\ job[j].el < Ver(j).delay
   /\ NeedsTime
-  /\ nticks' = nticks + 1
+  /\ nticks' = IF nticks < MaxTicks THEN nticks + 1 ELSE nticks
   /\ job' = AgeBy(job, 1)
   /\ OpEv(0, 0, "")
   /\ last' = KeepForced([NoLast EXCEPT !.op = "tick"])
@@ -655,7 +657,7 @@ Client == \/ \E p \in P : \E b \in BadKinds : Schedule(p, b)
           \/ \E p \in P : \E v \in 0 .. Len(VerTable) : Reload(p, v)
           \/ Save \/ ShutdownBegin \/ ShutdownForce \/ LongAdv \/ Restart
 
-Next == (Internal \/ Client) /\ obs' = IF Gen THEN obs ELSE ObsSt'
+Next == (Internal \/ Client) /\ obs' = IF Gen THEN obs ELSE ObsSt'   \* (= ObsNext, defined below)
 
 Spec == Init /\ [][Next]_vars
 
@@ -675,10 +677,12 @@ Alias == [ev |-> ev.k, op |-> ToString(<<last.op, last.p, last.j, last.t, last.o
           quiet |-> obs.quiet, idle |-> obs.idle, ostore |-> ToString(obs.store), agrees |-> Pr!StoreAgrees, pwi |-> Pr!C11_PersistWithinInterval, phase |-> obs.phase, listed |-> ToString([j \in Jobs |-> obs.jobs[j].listed])]
 
 \* fairness for the liveness configs: goroutines run, timers fire, tasks terminate, loops poll
-Fair == /\ \A j \in 1 .. MaxJobs : WF_vars(FirstStep(j)) /\ WF_vars(CancelDeliver(j)) /\ WF_vars(JobComplete(j))
-                                    /\ WF_vars(TimerFire(j)) /\ WF_vars(Poll(j))
-                                    /\ WF_vars(\E t \in 1 .. 4 : Finish(j, t, "ok"))
-        /\ WF_vars(Tick) /\ WF_vars(PersistSave) /\ WF_vars(ShutdownFinish) /\ WF_vars(LongAdv)
+ObsNext == obs' = IF Gen THEN obs ELSE ObsSt'
+Fair == /\ \A j \in 1 .. MaxJobs : /\ WF_vars(FirstStep(j) /\ ObsNext) /\ WF_vars(CancelDeliver(j) /\ ObsNext)
+                                   /\ WF_vars(JobComplete(j) /\ ObsNext) /\ WF_vars(TimerFire(j) /\ ObsNext)
+                                   /\ WF_vars(Poll(j) /\ ObsNext)
+                                   /\ WF_vars((\E t \in 1 .. 4 : Finish(j, t, "ok")) /\ ObsNext)
+        /\ WF_vars(Tick /\ ObsNext) /\ WF_vars(PersistSave /\ ObsNext) /\ WF_vars(ShutdownFinish /\ ObsNext) /\ WF_vars(LongAdv /\ ObsNext)
 FairSpec == Spec /\ Fair
 
 (* the Props formulas under the refinement mapping, named for the cfg files *)
